@@ -718,6 +718,42 @@ impl<'d> Session<'d> {
                                 self.out.probe("post_fault_render.unresolved");
                             }
                         }
+                        // an item that was rendered before is rendered the same way now
+                        // (later, unrelated calls do not change what earlier calls defined)
+                        if enforce {
+                            if let Some(prev) = &self.last_scan {
+                                for (k, old_texts) in &prev.items {
+                                    if old_texts.len() != 1 {
+                                        continue;
+                                    }
+                                    if let Some(new_texts) = scan.items.get(k) {
+                                        if new_texts.len() == 1 && new_texts[0] != old_texts[0] {
+                                            if self.reported_problems.insert(format!("changed {k}")) {
+                                                let pos = old_texts[0].chars().zip(new_texts[0].chars()).position(|(x, y)| x != y).unwrap_or(0);
+                                                let cut = |t: &str| -> String { t.chars().skip(pos.saturating_sub(60)).take(160).collect() };
+                                                self.violate(
+                                                    "I1",
+                                                    format!("rendered-item-changed:{opkind}"),
+                                                    step,
+                                                    format!("{k}: was `…{}…`, now `…{}…`", cut(&old_texts[0]), cut(&new_texts[0])),
+                                                    "what earlier calls defined keeps its structure after later calls",
+                                                );
+                                            }
+                                            break;
+                                        }
+                                    } else if !k.contains("::impl") && self.reported_problems.insert(format!("vanished {k}")) {
+                                        self.violate(
+                                            "I1",
+                                            format!("rendered-item-vanished:{opkind}"),
+                                            step,
+                                            format!("{k} was rendered before this call and is gone now"),
+                                            "what earlier calls defined stays defined",
+                                        );
+                                        break;
+                                    }
+                                }
+                            }
+                        }
                         self.last_scan = Some(scan);
                     }
                 }
